@@ -5,8 +5,6 @@
   (ite (= (ckind c) 6) (piTarget (nodeOf c))
   (ite (= (ckind c) 3) (nsPrefix (nodeOf c)) str_empty))))
 (define-fun uriOf ((c Cursor)) Str (ite (namedNode c) (nodeSpace (nodeOf c)) str_empty))
-;; the library's notation for an expanded name with a namespace: fmt.Sprintf("{%s}%s", uri, local)
-(declare-fun bracedName (Str Str) Str)
 (define-fun nameOf ((c Cursor)) Str (ite (= (uriOf c) str_empty) (localOf c) (bracedName (uriOf c) (localOf c))))
 ;; what name()/local-name()/namespace-uri() return for a node-set: the fact about its first node in document order
 (define-fun localOfSeq ((q NSeq)) Str (ite (= (qlen q) 0) str_empty (localOf (qfirst q))))
